@@ -477,6 +477,17 @@ def check(prop, tier, seed):
     if not reported:
         print("OK property=%s tier=%s seed=%d theorems=%d evaluations=%d distinct_nontrivial=%d wall=%.1fs" %
               (prop, tier, seed, len(obl["theorems"]), agg["evaluations"], agg["distinct_nontrivial"], wall))
+    if not reported:
+        # nothing to look at afterwards: drop the case files of this run (the thorough batch runs write
+        # about a gigabyte each); statistics and the cases as JSON stay
+        for part in cfg["parts"]:
+            d = os.path.join(WORK, "%s-%s-%s" % (prop, part["family"], tier))
+            for f in glob.glob(os.path.join(d, "cases_*.v*")) + glob.glob(os.path.join(d, "cases_*.glob")) + \
+                    glob.glob(os.path.join(d, ".cases_*.aux")):
+                try:
+                    os.remove(f)
+                except OSError:
+                    pass
     return 1 if reported else 0
 
 
